@@ -231,6 +231,23 @@ def step_assumptions(root, prop, cfg, st):
     return ok
 
 
+def step_coqchk(root, prop, st):
+    """Thorough tier: the independent checker re-checks Props/<prop>.vo and everything it depends on."""
+    c = os.path.join(root, "coq")
+    t0 = time.time()
+    rc, out = run(["coqchk", "-silent", "-o", "-Q", ".", "PV", "PV.Props.%s" % prop], cwd=c, timeout=5400)
+    summ = {}
+    for key in ("Axioms", "Constants/Inductives relying on type-in-type", "Constants/Inductives relying on unsafe (co)fixpoints",
+                "Inductives whose positivity is assumed"):
+        m = re.search(r"\* " + re.escape(key) + r":(.*?)(?:\n\s*\n|\Z)", out, re.S)
+        summ[key] = " ".join(m.group(1).split()) if m else "?"
+    st["coqchk"] = {"rc": rc, "wall_s": round(time.time() - t0, 1), "summary": summ}
+    ok = rc == 0 and all(v == "<none>" for v in summ.values())
+    if not ok:
+        st["proof_errors"].append({"obligation": "coqchk:%s" % prop, "detail": out[-1500:]})
+    return ok
+
+
 def step_driver(root, st):
     """Re-extract the model and rebuild the OCaml driver when any model .vo or driver source is newer."""
     b = os.path.join(root, "build")
@@ -434,6 +451,8 @@ def check(root, prop, cfg, tier, seed):
         make_ok = step_make(root, targets + ["Extract/Deps.vo"], st)
         hygiene_ok = step_hygiene(root, st)
         assum_ok = step_assumptions(root, prop, cfg, st) if make_ok else False
+        if tier == "thorough" and make_ok and cfg.get("coqchk", True):
+            assum_ok = step_coqchk(root, prop, st) and assum_ok
         # the executable model may still build although a proof broke
         model_targets = cfg.get("model_targets", [])
         model_ok = make_ok or step_make(root, model_targets + ["Extract/Deps.vo"], {"proof_errors": [], "tie_errors": []})
@@ -507,6 +526,7 @@ def check(root, prop, cfg, tier, seed):
             "seed": seed, "tier": tier, "first": v0, "rejects": violations[:20],
             "cases": [cl[str(i)] for i in ids[:20] if str(i) in cl],
             "how_to_replay": "./check %s --replay <this file>" % prop})
+        log("oracle rejected %d case(s); first: %s %s" % (len(violations), v0.get("what", ""), json.dumps(v0.get("detail", ""))[:600]))
         lines.append("VIOLATION property=%s replay=%s" % (prop, os.path.relpath(rp, root)))
         rc = 1
     elif not proofs_ok or not corr_ok:
@@ -591,6 +611,9 @@ def finish(root, prop, cfg, tier, seed, st, hj, t_start, violations):
         "proof_errors": st["proof_errors"],
         "hygiene_bad": st.get("hygiene_bad", []),
     }
+    if st.get("coqchk"):
+        cov["coqchk"] = st["coqchk"]
+        cov["checker_cmd"] += " ; coqchk -silent -o -Q . PV PV.Props.%s" % prop
     if hj:
         cov.update({
             "evaluations": hj["cases"], "distinct_nontrivial": hj["distinct_nontrivial"],
